@@ -14,10 +14,10 @@ def jobs_for(tier):
     for variant in (512, 1024):
         for n in (1, 2, 4):
             jobs.append((MOD, 'verify_scen', dict(n=n, variant=variant, mode='arbitrary', deadline_s=3000)))
-    real = [(1, 3), (1, 4)] if tier == 'quick' else [(1, 3), (1, 4), (1, 6), (2, 3), (2, 4), (2, 5), (4, 5)]
+    real = [(1, 3), (1, 4)] if tier == 'quick' else [(1, 3), (1, 4), (1, 6), (2, 3), (2, 4)]
     for n, L in real:
         for variant in ((512,) if tier == 'quick' else (512, 1024)):
-            jobs.append((MOD, 'verify_scen', dict(n=n, variant=variant, mode='real', L=L, deadline_s=3000)))
+            jobs.append((MOD, 'verify_scen', dict(n=n, variant=variant, mode='real', L=L, deadline_s=6000)))
     return jobs
 
 
@@ -86,18 +86,37 @@ def differential(rep, variant, cands, key, what, stop_after_first=True, need_pan
     return found
 
 
+def params_check(rep, fields=('n', 'sigma', 'sigmin', 'sig_bound', 'sig_bytelen')):
+    """the parameter table of both variants (real MIR of FalconVariant::parameters) against the specification's constants"""
+    from . import c02_scen
+    r = c02_scen.params_scen()
+    rep.extra.setdefault('mir_hashes', {}).update(r['mir_hash'])
+    want = {v: {'n': v, 'sigma': spec.SIGMA[v], 'sigmin': spec.SIGMA_MIN[v], 'sig_bound': spec.SIG_BOUND[v], 'sig_bytelen': spec.SIG_BYTELEN[v]} for v in (512, 1024)}
+    for v in (512, 1024):
+        for f in fields:
+            got, w = r['params'][v][f], want[v][f]
+            ok = abs(got - w) <= 1e-12 * abs(w) if isinstance(w, float) else got == w
+            rep.oblige(1, ok=ok)
+            if not ok:
+                nat = replay.call1(['params', v]); rep.replayed += 1
+                rep.violation('parameters:%s' % f, 'FalconVariant::Falcon%d.parameters().%s = %r, the specification says %r (natively: %s)' % (v, f, got, w, nat),
+                              {'replay_request': ['params', v], 'native': nat, 'expected': w})
+    rep.sample({'engine': 'M', 'function': 'FalconVariant::parameters', 'values': r['params']})
+
+
 def check(tier):
     rep = Report('C02', tier)
     rep.functions = ['(composed lemmas, re-run here) encoding::{compress,decompress}, polynomial::hash_to_point, NTT tables and generic butterflies', 'falcon::verify::<N> and its five closures (N in {1,2,4})', 'FalconVariant::parameters (real sig_bound constants)', 'Felt::{new,balanced_value,value}',
                      'encoding::decompress (real, in the `real` scenarios)']
     rep.bounds = ['toy degrees N in {1,2,4} with the real Falcon-512 and Falcon-1024 parameter sets (from_n overridden); all c, h in Z_q^N, all s2 with |s2_i| < 12160, all salts/messages',
-                  'real decompress composed in for (N,L) in {(1,3),(1,4)} quick; + (1,6),(2,3),(2,4),(2,5),(4,5) thorough, signature bytes fully symbolic',
+                  'real decompress composed in for (N,L) in {(1,3),(1,4)} quick; + (1,6),(2,3),(2,4) thorough, signature bytes fully symbolic',
                   'squares are abstracted by fresh variables tied to their operands (sound over-approximation); boundary witnesses norm = bound-1, bound, bound+1 are required reachable']
     rep.outside = ['end-to-end verify::<512/1024> on fully symbolic 666/1280-byte signatures', 'SHAKE-256', 'the NTT pipeline itself (contract = C11): only its wiring is checked here']
     rep.trusted = ['mirsym summaries', 'z3', 'composition on paper: verify = glue (here) o decompress (C07) o HashToPoint (C14) o exact NTT product (C11) o exact field ops (C12)',
                    'c arbitrary canonical and c -> c - s2*h bijective, hence s1 is a free canonical vector in the glue query']
     rep.assumptions = ['oracle: Algorithm 16 with floor(beta^2) = 34034726 / 70265242 from the specification (vf/spec.py)']
     load_program(fresh=True)
+    params_check(rep, ('n', 'sig_bound', 'sig_bytelen'))
     jobs = jobs_for(tier)
     results = run_jobs(jobs, workers=NCPU, order_seed=seed())
     hashes = {}
